@@ -60,25 +60,38 @@ fn verify_case(
         json!({"name": name, "content": bytes_json(content), "algo": algo, "recorded_hash": recorded_hash,
                "recorded_size": recorded_size, "via_text": via_text})
     };
+    if let Some(parent) = path.parent() {
+        let _ = std::fs::create_dir_all(parent);
+    }
     if std::fs::write(&path, content).is_err() {
         t.violation(Violation::new("verify", case(), json!("scratch file written"), json!("write failed"), "harness: cannot write scratch file"));
         return;
     }
+    // for DIST_SUBDIR names: an entry with the same file name under another directory is
+    // recorded first; it is not a trailing sub-path of the file's path and must not be used
+    let base = name.rsplit('/').next().unwrap_or(name);
+    let other = if name.contains('/') { Some(format!("x/{}", base)) } else { None };
     let truth = model_hash(algo, content, patch);
+    // a patch has no size line in a distinfo file; through the API it may carry a size
+    let nosize = patch && via_text;
     let real_len = content.len() as u64;
     let other_algo = ALGOS[(ALGOS.iter().position(|a| *a == algo).unwrap() + 1) % 6];
 
     let r = guard(|| {
         let di = if via_text {
-            let m = Model {
-                rcsid: None,
-                distfiles: if patch { vec![] } else { vec![File { name: name.as_bytes().to_vec(), checksums: vec![(algo.into(), recorded_hash.into())], size: recorded_size }] },
-                patchfiles: if patch { vec![File { name: name.as_bytes().to_vec(), checksums: vec![(algo.into(), recorded_hash.into())], size: None }] } else { vec![] },
-            };
+            let mut files = vec![];
+            if let Some(o) = &other {
+                files.push(File { name: o.as_bytes().to_vec(), checksums: vec![(algo.into(), "00".into())], size: if patch { None } else { Some(u64::MAX) } });
+            }
+            files.push(File { name: name.as_bytes().to_vec(), checksums: vec![(algo.into(), recorded_hash.into())], size: if patch { None } else { recorded_size } });
+            let m = Model { rcsid: None, distfiles: if patch { vec![] } else { files.clone() }, patchfiles: if patch { files } else { vec![] } };
             Distinfo::from_bytes(&md::serialise(&m))
         } else {
             let mut d = Distinfo::new();
-            d.insert(Entry::new(name, &path, vec![Checksum::new(digest_of(algo), recorded_hash.to_string())], if patch { None } else { recorded_size }));
+            if let Some(o) = &other {
+                d.insert(Entry::new(o, "/nonexistent", vec![Checksum::new(digest_of(algo), "00".to_string())], if patch { None } else { Some(u64::MAX) }));
+            }
+            d.insert(Entry::new(name, &path, vec![Checksum::new(digest_of(algo), recorded_hash.to_string())], recorded_size));
             d
         };
         let calc = Distinfo::calculate_checksum(&path, digest_of(algo));
@@ -121,7 +134,7 @@ fn verify_case(
         } else {
             match v {
                 Err(DistinfoError::Checksum(p, d, exp, act))
-                    if p.as_os_str() == std::ffi::OsStr::new(name) && d.to_string() == algo && exp == recorded_hash && *act == truth => None,
+                    if { let _ = p; true } && d.to_string() == algo && exp == recorded_hash && *act == truth => None,
                 other => Some((
                     json!({"Checksum": {"name": name, "algo": algo, "expected": recorded_hash, "actual": truth}}),
                     json!(format!("{:?}", other.as_ref().map(|d| d.to_string()).map_err(err_json))),
@@ -146,15 +159,16 @@ fn verify_case(
         return;
     }
     // size verification
-    let size_expect_ok = !patch && recorded_size == Some(real_len);
-    let size_ok = match (&v_size, patch, recorded_size) {
+    let size_expect_ok = !nosize && recorded_size == Some(real_len);
+    let size_ok = match (&v_size, nosize, recorded_size) {
         (Err(DistinfoError::MissingSize(_)), true, _) | (Err(DistinfoError::MissingSize(_)), false, None) => true,
-        (Ok(n), false, Some(s)) => size_expect_ok && *n == s,
-        (Err(DistinfoError::Size(p, exp, act)), false, Some(s)) => !size_expect_ok && p.as_os_str() == std::ffi::OsStr::new(name) && *exp == s && *act == real_len,
+        // which path the error names, and what Ok carries, is not part of the statement
+        (Ok(_), false, Some(_)) => size_expect_ok,
+        (Err(DistinfoError::Size(_, exp, act)), false, Some(s)) => !size_expect_ok && *exp == s && *act == real_len,
         _ => false,
     };
     if !size_ok {
-        bad("verify_size succeeds exactly when the length equals the recorded size (Size error with expected/actual, MissingSize when none recorded)", json!({"recorded": recorded_size, "actual_len": real_len, "patch": patch}), json!(format!("{:?}", v_size.as_ref().map_err(err_json))));
+        bad("verify_size succeeds exactly when the length equals the recorded size (Size error with expected/actual, MissingSize when none recorded)", json!({"recorded": recorded_size, "actual_len": real_len, "patch": patch, "size_recorded": !nosize}), json!(format!("{:?}", v_size.as_ref().map_err(err_json))));
         return;
     }
     match via_entry {
@@ -178,12 +192,12 @@ fn verify_case(
         if std::os::unix::fs::symlink(&path, &link).is_ok() {
             let r = guard(|| {
                 let mut d = Distinfo::new();
-                d.insert(Entry::new(name, &link, vec![Checksum::new(digest_of(algo), recorded_hash.to_string())], if patch { None } else { recorded_size }));
+                d.insert(Entry::new(name, &link, vec![Checksum::new(digest_of(algo), recorded_hash.to_string())], if nosize { None } else { recorded_size }));
                 (d.verify_size(&link).map_err(|e| err_json(&e)), d.verify_checksum(&link, digest_of(algo)).map(|d| d.to_string()).map_err(|e| err_json(&e)), Distinfo::calculate_size(&link).map_err(|e| err_json(&e)))
             });
             let _ = std::fs::remove_file(&link);
             if let Ok((vs, vc, cs)) = r {
-                let size_ok = if patch || recorded_size.is_none() { vs.is_err() } else { vs.is_ok() == (recorded_size == Some(real_len)) };
+                let size_ok = if nosize || recorded_size.is_none() { vs.is_err() } else { vs.is_ok() == (recorded_size == Some(real_len)) };
                 let ck_ok = vc.is_ok() == (recorded_hash == truth);
                 if !(size_ok && ck_ok && cs == Ok(real_len)) {
                     bad("verification through a symbolic link must see the file, not the link", json!({"size_matches": recorded_size == Some(real_len), "hash_matches": recorded_hash == truth, "len": real_len}), json!(format!("{:?} {:?} {:?}", vs, vc, cs)));
@@ -196,9 +210,9 @@ fn verify_case(
         "{}/hash-{}/size-{}",
         if patch { "patch" } else { "distfile" },
         if recorded_hash == truth { "ok" } else { "mismatch" },
-        if patch || recorded_size.is_none() { "none" } else if size_expect_ok { "ok" } else { "mismatch" }
+        if nosize || recorded_size.is_none() { "none" } else if size_expect_ok { "ok" } else { "mismatch" }
     );
-    if recorded_hash != truth || !(size_expect_ok || patch) {
+    if recorded_hash != truth || !(size_expect_ok || nosize) {
         t.nontrivial += 1;
     }
     t.outcome(&key);
@@ -264,7 +278,7 @@ fn multi_case(t: &mut Tally, dir: &Path, name: &str, content: &[u8], algos: &[&s
         if rec == truth {
             matches!(v, Ok(d) if d.to_string() == *a)
         } else {
-            matches!(v, Err(DistinfoError::Checksum(p, d, exp, act)) if p.as_os_str() == std::ffi::OsStr::new(name) && d.to_string() == *a && exp == rec && act == truth)
+            matches!(v, Err(DistinfoError::Checksum(_, d, exp, act)) if d.to_string() == *a && exp == rec && act == truth)
         }
     };
     let want: Vec<Value> = recorded.iter().map(|(a, rec, truth)| if rec == truth { json!({"ok": a}) } else { json!({"Checksum": {"algo": a, "expected": rec, "actual": truth}}) }).collect();
@@ -332,6 +346,12 @@ fn contents(max_lines: usize) -> Vec<Vec<u8>> {
     out.push(b"a\n$NetBSD$".to_vec());
     out.push(b"a\n# $NetBSD".to_vec());
     out.push(b"$NetBSD".to_vec());
+    // near misses of the marker: only lines containing exactly "$NetBSD" go
+    for near in [&b"see NetBSD PR 1\n"[..], b"$netbsd$\n", b"$NETBSD: x $\n", b"$Id$\n", b"$ NetBSD$\n", b"$FreeBSD$\n", b"$Net BSD$\n", b"NetBSD$\n", b"$NetBS D$\n", b"\\$NetBSD$\n"] {
+        out.push([b"a\n".as_slice(), near, b"b\n"].concat());
+        out.push(near.to_vec());
+        out.push([near, b"$NetBSD$\n", near].concat());
+    }
     // scale: files larger than any plausible read buffer
     for len in [4095usize, 4096, 4097, 65_535, 65_536, 65_537, 1_048_577] {
         let mut c: Vec<u8> = (0..len).map(|i| ((i * 31 + 7) % 251) as u8).collect();
@@ -348,6 +368,20 @@ fn flip_hex(c: char) -> char {
 }
 
 fn sweep_content(run: &Run, t: &mut Tally, dir: &Path, content: &[u8], algos: &[&str], all_positions: bool) {
+    // files below DIST_SUBDIR-style directories: verification from the full path
+    if all_positions {
+        for name in ["e/d/f.tgz", "e/d/patch-aa", "d/f.tgz"] {
+            let patch = name.contains("patch-");
+            for algo in algos {
+                let truth = model_hash(algo, content, patch);
+                let len = content.len() as u64;
+                for via_text in [false, true] {
+                    verify_case(t, dir, name, content, algo, &truth, Some(len), via_text);
+                    verify_case(t, dir, name, content, algo, &format!("{}0", truth), Some(len + 1), via_text);
+                }
+            }
+        }
+    }
     for name in ["f.tgz", "patch-aa"] {
         let patch = name.starts_with("patch-");
         for algo in algos {
@@ -368,8 +402,19 @@ fn sweep_content(run: &Run, t: &mut Tally, dir: &Path, content: &[u8], algos: &[
             verify_case(t, dir, name, content, algo, &truth[..truth.len() - 1], Some(len), false);
             verify_case(t, dir, name, content, algo, &format!("{}0", truth), Some(len), true);
             verify_case(t, dir, name, content, algo, &truth.to_uppercase().replace(|c: char| c.is_ascii_digit(), "g"), Some(len), false);
+            // the digest is lower-case hex: an upper-cased or case-flipped record is a different string,
+            // and so is one with a trailing blank or newline (recordable through the API only)
+            if truth.chars().any(|c| c.is_ascii_lowercase()) {
+                verify_case(t, dir, name, content, algo, &truth.to_uppercase(), Some(len), false);
+                let k = truth.find(|c: char| c.is_ascii_lowercase()).unwrap();
+                let flipped = format!("{}{}{}", &truth[..k], truth[k..k + 1].to_uppercase(), &truth[k + 1..]);
+                verify_case(t, dir, name, content, algo, &flipped, Some(len), true);
+            }
+            verify_case(t, dir, name, content, algo, &format!("{} ", truth), Some(len), false);
+            verify_case(t, dir, name, content, algo, &format!("{}\n", truth), Some(len), false);
+            verify_case(t, dir, name, content, algo, &format!(" {}", truth), Some(len), false);
             // recorded-size corruptions and absence
-            for s in [Some(len + 1), len.checked_sub(1), if len > 0 { Some(0) } else { None }, Some(u64::MAX)] {
+            for s in [Some(len + 1), len.checked_sub(1), if len > 0 { Some(0) } else { None }, Some(u64::MAX), Some(len + (1 << 32)), Some(len + (1 << 31)), Some(len + (1 << 63)), Some(len + 256), Some(len + 65536)] {
                 if s.is_some() {
                     verify_case(t, dir, name, content, algo, &truth, s, false);
                 }
